@@ -66,6 +66,8 @@ func (j *fJob) classOf() string {
 		return j.spec.Hash + "/Sum-Write-Sum"
 	case "state":
 		return j.spec.Hash + "/State-SetState"
+	case "alias":
+		return j.spec.Hash + "/Write-subslice-Write-other+second-hasher"
 	case "perm":
 		return fmt.Sprintf("poseidon2/Permutation-t%d", j.width)
 	}
@@ -74,7 +76,7 @@ func (j *fJob) classOf() string {
 
 func (j *fJob) nOut() int {
 	switch j.mode {
-	case "stream":
+	case "stream", "alias":
 		return 2
 	case "state":
 		return 3
@@ -148,6 +150,22 @@ func (c *fCircuit) Define(api frontend.API) error {
 			h.Write(in[j.split:]...)
 			s2 := h.Sum()
 			res[i] = []frontend.Variable{s1, s2}
+		case "alias":
+			// Write(in[:k]...) hands the hasher a slice with spare capacity; a second
+			// Write of other values must not reach the caller's slice
+			h.Write(in[:j.split]...)
+			var other []frontend.Variable
+			for k := j.split; k < len(in) && k < j.split+3; k++ {
+				other = append(other, api.Add(in[k], 1))
+			}
+			h.Write(other...)
+			d1 := h.Sum()
+			h2, err := newFieldHasher(api, j.spec)
+			if err != nil {
+				return err
+			}
+			h2.Write(in...)
+			res[i] = []frontend.Variable{d1, h2.Sum()}
 		case "state":
 			ss, ok := h.(hash.StateStorer)
 			if !ok {
@@ -226,6 +244,16 @@ func nativeField(cv *curveNat, j *fJob) []*big.Int {
 		// Reset is documented to restore the initial state, so the reference is the plain digest
 		writeElems(h, size, j.msg)
 		return []*big.Int{bi(h.Sum(nil))}
+	case "alias":
+		writeElems(h, size, j.msg[:j.split])
+		for k := j.split; k < len(j.msg) && k < j.split+3; k++ {
+			x := new(big.Int).Add(j.msg[k], big.NewInt(1))
+			writeElems(h, size, []*big.Int{x.Mod(x, cv.field)})
+		}
+		d1 := bi(h.Sum(nil))
+		h2 := cv.nativeFH(j.spec)
+		writeElems(h2, size, j.msg)
+		return []*big.Int{d1, bi(h2.Sum(nil))}
 	case "stream":
 		writeElems(h, size, j.msg[:j.split])
 		s1 := bi(h.Sum(nil))
@@ -287,7 +315,7 @@ func (b *fBatch) describe(s int) map[string]any {
 	if j.chunks != nil {
 		d["write_chunks"] = j.chunks
 	}
-	if j.mode == "stream" || j.mode == "state" {
+	if j.mode == "stream" || j.mode == "state" || j.mode == "alias" {
 		d["split_at"] = j.split
 	}
 	if j.mode == "reset" {
